@@ -349,11 +349,11 @@ func (h h1) Gen(prop, tier string, r *simrt.Rng) (any, simrt.Config) {
 		// runs longer than one progress period
 		c.MaxDurationNs = int64(simrt.Pick(r, 1100, 2100, 3200))*int64(time.Millisecond) + odd(r)
 		if thorough && r.Intn(5) == 0 {
-			c.MaxDurationNs = int64(simrt.Pick(r, 12, 65))*int64(time.Second) + odd(r)
+			c.MaxDurationNs = int64(simrt.Pick(r, 12, 65, 85))*int64(time.Second) + odd(r)
 		}
 		if r.Intn(40) == 0 {
-			c.MaxDurationNs = int64(simrt.Pick(r, 65, 75))*int64(time.Second) + odd(r)
-			c.C01LateCancel = true // interrupted after f1 moved to its slower progress schedule
+			c.MaxDurationNs = int64(simrt.Pick(r, 76, 85))*int64(time.Second) + odd(r)
+			c.C01LateCancel = true // interrupted after f1 moved to its slower progress schedule and reported once on it
 		}
 		c.Metrics = r.Intn(3) != 0
 		c.WaitTimeoutNs = 10*int64(time.Second) + odd(r)
@@ -501,7 +501,7 @@ func (h h1) Gen(prop, tier string, r *simrt.Rng) (any, simrt.Config) {
 	}
 	if c.C01LateCancel {
 		c.CancelAtStep, c.CancelAtSite = 0, ""
-		c.CancelAtNs = int64(60*time.Second) + int64(r.Intn(4500))*int64(time.Millisecond) + 137
+		c.CancelAtNs = int64(simrt.Pick(r, 70, 70, 60)*int(time.Second)) + int64(200+r.Intn(4500))*int64(time.Millisecond) + 137
 	}
 
 	switch prop {
